@@ -496,6 +496,25 @@ def run_case(case):
             C["sharing_updates"] += 1
             if abs(v1 - v2) > 1e-9 * max(1.0, abs(v2)):
                 V.append(tt.viol("C13:update-not-shared", "after updating %s through the registry the joint is %.12g, a rebuilt specification gives %.12g" % (pid, v1, v2), updated=pid, **detail))
+        # the same through another holder of an id: a view onto a plain parameter is assigned, every other holder of that parameter sees it
+        views = [d for t in effective for d in walk_defs(t) if d["type"] == "ViewParameter" and d["id"] in dic
+                 and type(dic[d["id"]].parameter).__name__ == "Parameter" and not V]
+        if views:
+            vd = views[int(rng.integers(len(views)))]
+            vw = dic[vd["id"]]
+            _ = dic[jid]()  # every holder has been evaluated (caches filled) before the update arrives through the view
+            vw.tensor = vw.tensor.detach() * float(rng.uniform(1.2, 1.9))  # stays on the same side of zero (scales stay positive)
+            v1 = tt.as_np(dic[jid](), "C13:not-a-tensor").sum()
+            rebuilt = copy.deepcopy(effective)
+            for d in (x for t in rebuilt for x in walk_defs(t)):
+                if d["type"] == "Parameter" and "tensor" in d and d["id"] in dic:
+                    d["tensor"] = dic[d["id"]].tensor.detach().tolist()  # every plain parameter as it stands now
+            _, dic4 = tt.load(rebuilt)
+            v2 = tt.as_np(dic4[jid](), "C13:not-a-tensor").sum()
+            C["sharing_updates"] += 1
+            C["sharing_updates_through_views"] = C.get("sharing_updates_through_views", 0) + 1
+            if abs(v1 - v2) > 1e-9 * max(1.0, abs(v2)):
+                V.append(tt.viol("C13:update-through-view-not-shared", "after assigning through the view %s the joint is %.12g, a rebuilt specification holding the same values gives %.12g" % (vd["id"], v1, v2), updated=vd["id"], **detail))
     fp = None
     if g.refs > 0 or fault != "none":
         import hashlib
